@@ -86,6 +86,11 @@ func propC13(w *World, r *Report) {
 								omit = c
 							} else if c := constName(bo.X); c != "" {
 								omit = c
+							} else if isNumeric(bo.X.Type()) && isNumeric(bo.Y.Type()) {
+								// omitted when the value equals another (non-constant) value:
+								// the reader can only substitute a constant
+								k3 := r.MkKey("dictdefaults", "cff", "operator "+op+" (variable comparison)")
+								r.FailC("dictdefaults", k3, []string{"nonconstant"}, w.Pos(x.Pos()), fmt.Sprintf("%s is written only when two run-time values differ (%s): when they are equal the operator is missing and the reader substitutes its constant default, not that value", op, w.Pos(bo.Pos())), nil)
 							}
 						}
 					}
@@ -169,7 +174,9 @@ func propC13(w *World, r *Report) {
 	for _, a := range boundsAssumptions {
 		r.Assumes(a)
 	}
-	RunLosslessFor(w, r, "C13", newBoundsRun(w))
+	br13 := newBoundsRun(w)
+	RunLosslessFor(w, r, "C13", br13)
+	runNarrowBoundIn(w, r, br13, "/cff")
 	r.Floor("dicttypes", 15)
 	checkOffSize(w, r)
 	{
@@ -548,4 +555,9 @@ func checkOffSize(w *World, r *Report) {
 		}
 	}
 	r.Floor("offsize", 3)
+}
+
+func isNumeric(t types.Type) bool {
+	b, ok := t.Underlying().(*types.Basic)
+	return ok && b.Info()&types.IsNumeric != 0
 }
